@@ -873,7 +873,22 @@ impl std::fmt::Display for Meta {
     fn fmt(&self, f: &mut std::fmt::Formatter<'_>) -> std::fmt::Result {
         match self {
             | Self::Ident(name) => write!(f, "{name}"),
-            | Self::String(value) => write!(f, "{value:?}"),
+            | Self::String(value) => {
+                // only the escapes the surface lexer decodes; `{:?}` would also write
+                // `\u{..}`, which it reads back as the text `u{..}`
+                f.write_str("\"")?;
+                for ch in value.chars() {
+                    match ch {
+                        | '\\' => f.write_str("\\\\")?,
+                        | '"' => f.write_str("\\\"")?,
+                        | '\n' => f.write_str("\\n")?,
+                        | '\r' => f.write_str("\\r")?,
+                        | '\t' => f.write_str("\\t")?,
+                        | ch => write!(f, "{ch}")?,
+                    }
+                }
+                f.write_str("\"")
+            }
             | Self::Integer(value) => write!(f, "{value}"),
             | Self::Apply { callee, args } => write!(
                 f,
